@@ -18,6 +18,9 @@ THEOREMS = [
     "PV.C03.rebase_toMx",
     "PV.C03.C03_interleave",
     "PV.C03.movBlocks_get",
+    "PV.C03.C03_assembled",
+    "PV.Multi.roving_cover",
+    "PV.Multi.flatMap_blocks_get",
     "PV.C01.C01_realisation_fast",
     "PV.realisation_similar",
 ]
